@@ -113,8 +113,66 @@ def evaluate(case):
             res.fail("pafscorer:order", f"{why}; edges={named_edges} order={tuple(sc.sorted_edge_inds)}")
         if list(map(tuple, sc.edge_inds)) != idx_edges:
             res.fail("pafscorer:edge_inds", f"edge_inds {sc.edge_inds} != {idx_edges}")
+        elif n <= GROUP_NMAX and not why:
+            consequence(res, sc, n, idx_edges)
     res.n_evals = max(res.n_evals, 1)
     return res
+
+
+GROUP_NMAX = 8
+
+
+def consequence(res, sc, n, idx_edges):
+    """The statement's consequence clause, observed where the order is consumed: two fully detected animals whose
+    every edge was matched (perfect one-to-one matches, score 1) are grouped through the scorer's own
+    `sorted_edge_inds` / `edge_types`; with a parent-before-child order no body part is left ungrouped, i.e. exactly
+    two instances come back, each with all n nodes of ONE animal."""
+    import numpy as np
+    import torch
+    from sleap_nn.inference.paf_grouping import group_instances_sample
+
+    # peaks listed channel by channel; inside a channel the animals alternate their order (so that positions are not
+    # accidentally equal to animal numbers)
+    xy, vals, chan, pos = [], [], [], {}
+    for k in range(n):
+        for slot, a in enumerate((0, 1) if k % 2 == 0 else (1, 0)):
+            pos[(k, a)] = slot
+            xy.append([10.0 * k + 1000.0 * a, 7.0 * k])
+            vals.append(0.9 - 0.01 * k)
+            chan.append(k)
+    me, ms, md, sc_ = [], [], [], []
+    for e, (s_, d_) in enumerate(idx_edges):
+        for a in (0, 1):
+            me.append(e)
+            ms.append(pos[(s_, a)])
+            md.append(pos[(d_, a)])
+            sc_.append(1.0)
+    args = [
+        torch.tensor(xy, dtype=torch.float32), torch.tensor(vals, dtype=torch.float32), torch.tensor(chan, dtype=torch.int32),
+        torch.tensor(me, dtype=torch.int32), torch.tensor(ms, dtype=torch.int32), torch.tensor(md, dtype=torch.int32),
+        torch.tensor(sc_, dtype=torch.float32),
+    ]
+    out = runner.guarded(
+        res, "grouping", group_instances_sample, *args, n, tuple(sc.sorted_edge_inds), sc.edge_types, 0, min_line_scores=0.25
+    )
+    if out is runner.FAILED:
+        return
+    res.n_evals += 1
+    inst = np.asarray(out[0], dtype=np.float64).reshape(-1, n, 2)
+    bad = None
+    if inst.shape[0] != 2:
+        bad = f"{inst.shape[0]} instances for 2 fully matched animals"
+    else:
+        for row in inst:
+            if np.isnan(row).any():
+                bad = f"a body part is left ungrouped: {row.tolist()}"
+                break
+            owners = {int(x >= 500.0) for x in row[:, 0]}
+            if len(owners) != 1:
+                bad = f"an instance mixes the two animals: {row.tolist()}"
+                break
+    if bad:
+        res.fail("grouping:body-part-left-ungrouped", f"{bad}; edge_inds={idx_edges} sorted_edge_inds={tuple(sc.sorted_edge_inds)}")
 
 
 def enum_cases(nmax):
